@@ -2,9 +2,10 @@
 # usage: try_seed.sh <patch.diff> <prop id>...   applies the patch to /repo, runs the checks, reverts.
 patch=$1; shift
 cd /repo && { [ -z "$(git status --porcelain)" ] || { echo "REFUSING: /repo has uncommitted changes"; exit 3; }; } && git apply "$patch" || { echo "patch does not apply"; exit 2; }
+keep=$(mktemp -d /tmp/evkeep_XXXX); for id in "$@"; do cp /verif/evidence/$id.json $keep/ 2>/dev/null; done
 for id in "$@"; do
   (cd /verif && timeout 900 ./bin/vfy check $id 2>&1 | grep "VIOLATION\|KNOWN\|property\|BROKEN" | sed 's/replay=.verif.replays.//' | cut -c1-260)
 done
 cd /repo && git checkout -- . && git status --short | head -3
-# the runs above rewrote the evidence files from a modified tree: put the committed ones back
-cd /verif && for id in "$@"; do git checkout -- evidence/$id.json 2>/dev/null; done
+# the runs above rewrote the evidence files from a modified tree: put back what was there before
+cd /verif && for id in "$@"; do cp $keep/$id.json evidence/$id.json 2>/dev/null || git checkout -- evidence/$id.json 2>/dev/null; done; rm -rf $keep
